@@ -171,17 +171,19 @@ func ruleR34_2(c *Check) {
 	idx := w.Field("y.mark.index")
 	du := w.Field("y.WaterMark.doneUntil")
 	closes, regs := 0, 0
-	p.walk(func(n ast.Node) bool {
+	// (walkInl: the branch may have been extracted into a helper called only from here; parameters are
+	// followed back to the arguments of that call)
+	p.walkInl(func(own *Fn, n ast.Node) bool {
 		call, ok := n.(*ast.CallExpr)
 		if ok {
-			if id, isID := unparen(call.Fun).(*ast.Ident); isID && id.Name == "close" && len(call.Args) == 1 && w.fieldOf(call.Args[0]) == waiterFld {
+			if isBuiltin(w, call, "close") && len(call.Args) == 1 && w.fieldFrom(call.Args[0]) == waiterFld {
 				closes++
 				okv := false
 				isMark := func(e ast.Expr) bool { return w.mentions(e, du) || w.mentions(e, w.Func("y.WaterMark.DoneUntil")) }
-				if op, _ := w.guardRel(w.Guards(p, call), isMark, w.isField(idx), true); op == token.GEQ {
+				if op, _ := w.guardRel(w.Guards(own, call), isMark, w.isField(idx), true); op == token.GEQ {
 					okv = true
 				}
-				r.Check(okv, p, "waiter released at once iff doneUntil >= index", call, "immediate close of a waiter is not under `doneUntil >= mark.index`")
+				r.Check(okv, own, "waiter released at once iff doneUntil >= index", call, "immediate close of a waiter is not under `doneUntil >= mark.index`")
 			}
 		}
 		return true
@@ -203,23 +205,41 @@ func ruleR34_2(c *Check) {
 	if waiters == nil {
 		panic(anchorError{"waiters map in WaterMark.process"})
 	}
-	p.walk(func(n ast.Node) bool {
+	var waitersDef ast.Expr
+	if defs := w.DefsOf(p, waiters); len(defs) == 1 {
+		waitersDef = defs[0]
+	}
+	isWaiters := func(e ast.Expr) bool {
+		if id, ok := unparen(e).(*ast.Ident); ok && w.Use(id) == types.Object(waiters) {
+			return true
+		}
+		return waitersDef != nil && w.from(e) == waitersDef
+	}
+	fromWaiter := func(e ast.Expr) bool {
+		found := false
+		ast.Inspect(e, func(m ast.Node) bool {
+			if x, ok := m.(ast.Expr); ok && w.fieldFrom(x) == waiterFld {
+				found = true
+			}
+			return !found
+		})
+		return found
+	}
+	p.walkInl(func(own *Fn, n ast.Node) bool {
 		as, ok := n.(*ast.AssignStmt)
 		if !ok || len(as.Lhs) != 1 {
 			return true
 		}
 		ix, ok := as.Lhs[0].(*ast.IndexExpr)
-		if !ok {
-			return true
-		}
-		if id, ok := unparen(ix.X).(*ast.Ident); !ok || w.Use(id) != types.Object(waiters) {
+		if !ok || !isWaiters(ix.X) {
 			return true
 		}
 		regs++
-		okv := w.fieldOf(ix.Index) == idx && w.mentions(as.Rhs[0], waiterFld)
+		okv := w.fieldFrom(ix.Index) == idx && fromWaiter(as.Rhs[0])
 		neg := false
 		isMark2 := func(e ast.Expr) bool { return w.mentions(e, du) || w.mentions(e, w.Func("y.WaterMark.DoneUntil")) }
-		if op, _ := w.guardRel(w.Guards(p, as), isMark2, w.isField(idx), false); op == token.LSS {
+		p := own
+		if op, _ := w.guardRel(w.Guards(own, as), isMark2, w.isField(idx), false); op == token.LSS {
 			neg = true
 		}
 		r.Check(okv && neg, p, "waiter registered under its index when the mark is below it", as, "registration is not `waiters[mark.index] = …waiter…` in the branch doneUntil < index")
@@ -673,10 +693,20 @@ func ruleR11_2(c *Check) {
 	// update keeps the maximum
 	okm := false
 	upd.walk(func(n ast.Node) bool {
-		if is, ok := n.(*ast.IfStmt); ok {
-			if be, ok := unparen(is.Cond).(*ast.BinaryExpr); ok && be.Op == token.GTR {
-				okm = true
-			}
+		// `if a > maxVersion { maxVersion = a }` in any spelling: the store of the candidate is guarded by candidate > current
+		as, ok := n.(*ast.AssignStmt)
+		if !ok || len(as.Lhs) != 1 || len(as.Rhs) != 1 {
+			return true
+		}
+		cur, ok1 := unparen(as.Lhs[0]).(*ast.Ident)
+		cand, ok2 := unparen(as.Rhs[0]).(*ast.Ident)
+		if !ok1 || !ok2 {
+			return true
+		}
+		isCur := func(e ast.Expr) bool { id, ok := unparen(e).(*ast.Ident); return ok && w.Use(id) == w.Use(cur) }
+		isCand := func(e ast.Expr) bool { id, ok := unparen(e).(*ast.Ident); return ok && w.Use(id) == w.Use(cand) }
+		if op, g := w.guardRel(w.Guards(upd, as), isCand, isCur, false); g != nil && (op == token.GTR || op == token.GEQ) {
+			okm = true
 		}
 		return true
 	})
